@@ -4,13 +4,14 @@ import (
 	"fmt"
 	"go/ast"
 	"go/token"
+	"os"
 	"strings"
 )
 
 // genWsTable reads from ws/websocket.go the facts the Ws model (coq/theories/Ws.v) is
-// parametric in: the capacity of shipWriteChannel and six syntactic facts about how the
+// parametric in: the capacity of shipWriteChannel and seven syntactic facts about how the
 // connection is marked closed, who closes which channel and how the writer sends.  A shape
-// that is none of the recognised ones is a translator failure (exit 2), never a guess.
+// that is none of the recognised ones is recorded in the table (ws_shape_recognised := false), never guessed.
 func init() { extraGens = append(extraGens, genWsTable) }
 
 func wsIsSel(e ast.Expr, recv, name string) bool {
@@ -84,12 +85,28 @@ func wsIsReturnOnly(b *ast.BlockStmt) bool {
 	return ok
 }
 
+// an unrecognised shape does not stop the other generators: the table is written with
+// ws_shape_recognised := false (WsProofs.v then fails at its first lemma, so C12/C13 report
+// a broken obligation naming the reason) and the flags of the tree as it was first found
+type wsShapeErr string
+
 func genWsTable() {
+	defer func() {
+		if r := recover(); r != nil {
+			msg, ok := r.(wsShapeErr)
+			if !ok {
+				panic(r)
+			}
+			fmt.Fprintln(os.Stderr, "extract: ws: shape not recognised:", string(msg))
+			writeIfChanged("WsTable.v", wsTableText(false, string(msg), 1, true, false, false, false, true, false, true))
+		}
+	}()
+	bad := func(a ...any) { panic(wsShapeErr(fmt.Sprint(a...))) }
 	ws := parseDir("ws")
 	need := func(recv, name string) *ast.FuncDecl {
 		fd := ws.funcDecl(recv, name)
 		if fd == nil || fd.Body == nil {
-			fatal("ws: function not found:", name)
+			bad("ws: function not found:", name)
 		}
 		return fd
 	}
@@ -119,7 +136,7 @@ func genWsTable() {
 		return true
 	})
 	if qcap < 0 || qcap > 64 {
-		fatal("ws: capacity of shipWriteChannel not recognised")
+		bad("ws: capacity of shipWriteChannel not recognised")
 	}
 
 	// ---- close(): once body; does it return early when the flag is already set?
@@ -137,7 +154,7 @@ func genWsTable() {
 	})
 	if onceBody == nil || !wsContainsBuiltinClose(onceBody, "closeChannel") || !wsContainsSelCall(onceBody, "Close") ||
 		!wsContainsCall(onceBody, "setConnClosedError") {
-		fatal("ws: close() is not `shutdownOnce.Do(func(){ setConnClosedError; close(closeChannel); conn.Close() })`")
+		bad("ws: close() is not `shutdownOnce.Do(func(){ setConnClosedError; close(closeChannel); conn.Close() })`")
 	}
 	earlyReturn := false
 	for _, st := range onceBody.List {
@@ -163,7 +180,7 @@ func genWsTable() {
 		}
 	}
 	if cweGuard == cwePlain || !wsContainsSelCall(cwe, "ReportConnectionError") {
-		fatal("ws: closeWithError has an unrecognised shape")
+		bad("ws: closeWithError has an unrecognised shape")
 	}
 
 	// ---- read pump error path: is the report guarded by the result of setConnClosedError?
@@ -205,16 +222,78 @@ func genWsTable() {
 		return true
 	})
 	if rpGuard == rpPlain {
-		fatal("ws: error path of readShipPump has an unrecognised shape")
+		bad("ws: error path of readShipPump has an unrecognised shape")
 	}
+	// between `message, err := w.readWebsocketMessage()` and the use of the result: `if w.isConnClosed() { return }`?
+	readRecheck := false
+	ast.Inspect(rp, func(n ast.Node) bool {
+		var list []ast.Stmt
+		switch x := n.(type) {
+		case *ast.BlockStmt:
+			list = x.List
+		case *ast.CommClause:
+			list = x.Body
+		case *ast.CaseClause:
+			list = x.Body
+		default:
+			return true
+		}
+		for i, st := range list {
+			as, ok := st.(*ast.AssignStmt)
+			if !ok || len(as.Rhs) != 1 || !wsIsMethodCall(as.Rhs[0], "readWebsocketMessage") || i+1 >= len(list) {
+				continue
+			}
+			if is, ok := list[i+1].(*ast.IfStmt); ok && wsIsMethodCall(is.Cond, "isConnClosed") && wsIsReturnOnly(is.Body) {
+				readRecheck = true
+			}
+		}
+		return true
+	})
 	if rpGuard != cweGuard {
-		fatal("ws: closeWithError and readShipPump disagree on whether the report is guarded by setConnClosedError's result")
+		bad("ws: closeWithError and readShipPump disagree on whether the report is guarded by setConnClosedError's result")
 	}
 	if rpGuard {
 		// the guard only means something if setConnClosedError really is a test-and-set under the mutex
+		// ... x := !w.connectionClosed ; w.connectionClosed = true ; return x, all under muxConnClosed
 		sc := need(T, "setConnClosedError")
-		if sc.Type.Results == nil || len(sc.Type.Results.List) != 1 || !wsContainsSelCall(sc, "Lock") {
-			fatal("ws: setConnClosedError does not return whether it was the first to mark the connection")
+		posLock, posRead, posSet, posRet := -1, -1, -1, -1
+		var readVar string
+		for i, st := range sc.Body.List {
+			switch x := st.(type) {
+			case *ast.ExprStmt:
+				if wsContainsSelCall(x, "Lock") && posLock < 0 {
+					posLock = i
+				}
+			case *ast.AssignStmt:
+				if len(x.Lhs) == 1 && len(x.Rhs) == 1 {
+					if u, ok := x.Rhs[0].(*ast.UnaryExpr); ok && u.Op == token.NOT && wsIsSel(u.X, "w", "connectionClosed") {
+						if id, ok := x.Lhs[0].(*ast.Ident); ok {
+							readVar, posRead = id.Name, i
+						}
+					}
+					if wsIsSel(x.Lhs[0], "w", "connectionClosed") {
+						if id, ok := x.Rhs[0].(*ast.Ident); ok && id.Name == "true" && posSet < 0 {
+							posSet = i
+						}
+					}
+				}
+			case *ast.ReturnStmt:
+				if len(x.Results) == 1 {
+					if id, ok := x.Results[0].(*ast.Ident); ok && id.Name == readVar && readVar != "" {
+						posRet = i
+					}
+				}
+			}
+		}
+		nret := 0
+		ast.Inspect(sc, func(n ast.Node) bool {
+			if _, ok := n.(*ast.ReturnStmt); ok {
+				nret++
+			}
+			return true
+		})
+		if !(posLock >= 0 && posLock < posRead && posRead < posSet && posSet < posRet && nret == 1) {
+			bad("ws: setConnClosedError is not `lock; x := !w.connectionClosed; w.connectionClosed = true; ...; return x`")
 		}
 	}
 
@@ -233,13 +312,13 @@ func genWsTable() {
 		}
 	}
 	if posWrite < 0 || posClose < posWrite {
-		fatal("ws: CloseDataConnection has an unrecognised shape")
+		bad("ws: CloseDataConnection has an unrecognised shape")
 	}
 	marksFirst := posMark >= 0 && posMark <= posWrite
 	if marksFirst {
 		// the close frame must then bypass the closed check, and only the marking call may send it
 		if wsContainsCall(cdc, "writeMessageWithoutErrorHandling") {
-			fatal("ws: CloseDataConnection marks the connection closed and then uses a write that checks the flag")
+			bad("ws: CloseDataConnection marks the connection closed and then uses a write that checks the flag")
 		}
 	}
 
@@ -247,13 +326,13 @@ func genWsTable() {
 	wp := need(T, "writeShipPump")
 	pumpCloses := wsContainsBuiltinClose(wp, "shipWriteChannel")
 	if !wsContainsCall(wp, "isConnClosed") || !wsContainsCall(wp, "writeMessage") {
-		fatal("ws: writeShipPump has an unrecognised shape")
+		bad("ws: writeShipPump has an unrecognised shape")
 	}
 
 	// ---- writer: mutex, closed check, then the send (plain or in a select against closeChannel)
 	wr := need(T, "WriteMessageToWebsocketConnection")
 	if !wsContainsSelCall(wr, "Lock") || !wsContainsCall(wr, "isConnClosed") {
-		fatal("ws: WriteMessageToWebsocketConnection has an unrecognised shape")
+		bad("ws: WriteMessageToWebsocketConnection has an unrecognised shape")
 	}
 	sendPlain, sendSelect := false, false
 	for _, st := range wr.Body.List {
@@ -285,9 +364,13 @@ func genWsTable() {
 		}
 	}
 	if sendPlain == sendSelect {
-		fatal("ws: the channel send of WriteMessageToWebsocketConnection has an unrecognised shape")
+		bad("ws: the channel send of WriteMessageToWebsocketConnection has an unrecognised shape")
 	}
 
+	writeIfChanged("WsTable.v", wsTableText(true, "", qcap, earlyReturn, cweCloses, rpGuard, marksFirst, pumpCloses, sendSelect, readRecheck))
+}
+
+func wsTableText(ok bool, why string, qcap int64, earlyReturn, cweCloses, rpGuard, marksFirst, pumpCloses, sendSelect, readRecheck bool) string {
 	b := func(x bool) string {
 		if x {
 			return "true"
@@ -296,6 +379,10 @@ func genWsTable() {
 	}
 	var sb strings.Builder
 	sb.WriteString("(* generated from /repo/ws/websocket.go — do not edit *)\n\n")
+	if !ok {
+		fmt.Fprintf(&sb, "(* SHAPE NOT RECOGNISED: %s *)\n", strings.ReplaceAll(why, "*)", "* )"))
+	}
+	fmt.Fprintf(&sb, "(* every shape fact below was recognised in the source *)\nDefinition ws_shape_recognised : bool := %s.\n\n", b(ok))
 	fmt.Fprintf(&sb, "(* make(chan []byte, N) in run() *)\nDefinition ws_queue_cap : nat := %d.\n\n", qcap)
 	fmt.Fprintf(&sb, "(* close(): `if w.isConnClosed() { return }` inside the once body *)\nDefinition ws_close_early_return : bool := %s.\n", b(earlyReturn))
 	fmt.Fprintf(&sb, "(* closeWithError calls w.close() *)\nDefinition ws_cwe_calls_close : bool := %s.\n", b(cweCloses))
@@ -303,5 +390,6 @@ func genWsTable() {
 	fmt.Fprintf(&sb, "(* CloseDataConnection marks the connection closed before it writes the close frame *)\nDefinition ws_close_marks_first : bool := %s.\n", b(marksFirst))
 	fmt.Fprintf(&sb, "(* writeShipPump closes shipWriteChannel when it exits *)\nDefinition ws_pump_closes_queue : bool := %s.\n", b(pumpCloses))
 	fmt.Fprintf(&sb, "(* the writer's send is `select { case ch <- m: ; case <-w.closeChannel: }` *)\nDefinition ws_send_selects_close : bool := %s.\n", b(sendSelect))
-	writeIfChanged("WsTable.v", sb.String())
+	fmt.Fprintf(&sb, "(* readShipPump tests isConnClosed() again right after ReadMessage returns *)\nDefinition ws_read_rechecks_closed : bool := %s.\n", b(readRecheck))
+	return sb.String()
 }
